@@ -24,6 +24,38 @@ CLAIMED = {
              "values; zeros when none supplied; non-negative; restored by a round trip. Model regenerated from converter.py each run; the "
              "translator's type inference refuses a conversion that can return None.", ref="8 (C06)",
              tech="Lean 4 theorems on translator output (slope = derivative, refinement) + differential correspondence"),
+ "C02": dict(text="Theorems on the model regenerated from transformer.py each run: for every input grid, output grid and data vector the core "
+             "transform (no options) returns the trapezoid sine quadrature T[x,y](x') (refinement through the crop-identity, kernel and "
+             "trapezoid lemmas); T is exactly 0 at x'=0, odd, additive and homogeneous in the data, and equals the weighted sum with "
+             "w_0=d_0/2, w_j=(d_{j-1}+d_j)/2, w_{n-1}=d_{n-2}/2. Correspondence + oracle (fsum reference) on the real code. Fortran "
+             "comparison: see DESIGN (partial).", ref="8 (C02)",
+             tech="Lean 4 refinement theorem on translator output + trapezoid algebra; differential correspondence"),
+ "C05": dict(text="For all 24 named transforms, all data/uncertainties/grids/options: wrapper = conversion-in ; core (F_to_G or G_to_F with the "
+             "same options) ; conversion-out, values and uncertainties, proved by unfolding the regenerated definitions (rfl); cores are "
+             "the core transform with 2/pi only in Q->r; no call site of Converter/Transformer passes a keyword the callee swallows "
+             "(decide on the translator's call-binding table).", ref="8 (C05)",
+             tech="Lean 4 definitional-unfolding theorems on translator output + call-binding facts; oracle vs explicit composition"),
+ "C07": dict(text="Theorems on the regenerated eout channel: refinement to sqrt(sum d_i^2 (s_i^2+s_{i+1}^2)/2) over in-window points; independent "
+             "of the data; zero without input uncertainties; homogeneous (c>=0); monotone in each input uncertainty; "
+             "exact <= coded <= 2*exact (ratio in [1,sqrt2]) against uncorrelated propagation through the trapezoid weights on every "
+             "non-decreasing grid; 2/pi scaling in F_to_G.", ref="8 (C07)",
+             tech="Lean 4 theorems (induction along the grid, nlinarith step lemma) on translator output + correspondence"),
+ "C13": dict(text="Theorems: apply_cropping = closed-interval filter on x,y,dy (order preserved, membership iff in [lo,hi]); crop idempotent; "
+             "fourier_transform with a window = fourier_transform of the pre-deleted data with the same window, as a full-triple "
+             "equality for every option set (Lorch, correction); inputs agreeing inside the window give identical results; no window = "
+             "identity crop. Non-finite outside values are exercised on the real code.", ref="8 (C13)",
+             tech="Lean 4 theorems on translator output (filter/compress lemmas) + correspondence + bitwise oracle"),
+ "C14": dict(text="Theorems: Lorch weight = sin(ax)/(ax), exactly 1 at x=0, |w|<=1; Lorch transform = plain transform of pre-multiplied data and "
+             "of pre-multiplied uncertainties (any window/grid); no uninitialised read reachable (translator fact, decide) and the "
+             "generated transform is independent of `junk` (rfl). Finite/reproducible under heap poisoning is checked on the real code. "
+             "Fortran window comparison: see DESIGN (partial).", ref="8 (C14)",
+             tech="Lean 4 theorems on translator output + uninitialised-read facts; heap-grooming oracle on the real code"),
+ "C16": dict(text="Partial: theorems about the translator's analyses of the current source — all 58 functions inside the functional subset "
+             "(in-place updates only on fresh arrays), no uninitialised reads (plus one generated rfl theorem per function: result "
+             "independent of junk), no state, dtype abstract run over all 1340 int/float assignments flags nothing for public methods. "
+             "The runtime observables (arguments bit-identical, results bit-identical across poisoned allocations and repeated calls, "
+             "int vs float copies) are checked on the real code on every run; CPython/numpy aliasing itself is not modelled.", ref="8 (C16), 4.4-4.6",
+             tech="Lean 4 decide/rfl over translator-emitted facts + runtime purity oracle (partial)"),
 }
 
 m = {"version": 1, "setup_cmd": "./setup.sh",
